@@ -108,8 +108,24 @@ def run(F, res, tier):
     res.ob("G1", "entry-min-bp", "expr() starts the Pratt loop with a min_bp below (and different from) every lbp",
            entry is not None and all(lbp > entry for lbp, _ in inf.values()), where=ex.loc(), how="min_bp=%s" % entry)
 
-    # ---- G2
-    eb = F.fn("syntax::parser::expr_bp")
+    # ---- G2 (on expr_bp with the private helpers a maintainer may have split off it inlined: functions of the parser that the
+    # reviewed tree did not have and that only expr_bp - or another such helper - calls)
+    eb0 = F.fn("syntax::parser::expr_bp")
+    import json as _json, os as _os
+    try:
+        with open(_os.path.join(_os.path.dirname(_os.path.abspath(__file__)), "fingerprints.json")) as fh:
+            _known = set(_json.load(fh))
+    except Exception:  # noqa
+        _known = set()
+    _new = {p for p in F.fns if p.startswith("syntax::parser::") and "Parser::" not in p and "{closure" not in p and p not in _known and F.fns[p].blocks}
+
+    def _private(p, seen=()):
+        if p not in _new or p in seen:
+            return False
+        cs = {f_.path for f_, b_, t_ in F.callers_of(lambda c, p=p: c == p)}
+        return bool(cs) and all(c == eb0.path or _private(c, seen + (p,)) for c in cs)
+    from lib import inline as _IL
+    eb = _IL.inlined(F, eb0, want=lambda p: _private(p), depth=3) if any(_private(p) for p in _new) else eb0
     d = FL.Defs(eb)
 
     def field_path(o):
@@ -621,7 +637,8 @@ def string_escapes(F, res, rule="G9"):
     state. A wrong entry ends `"C:\\\\"` at the wrong quote (or never): the following tokens of a well-formed program are
     lexed from inside a string."""
     from lib import cfold as CF
-    f = F.fn("syntax::lexer::lex_string")
+    from rules import c01 as _c01v
+    f = _c01v.lexer_callback_view(F)
     d = FL.Defs(f)
     # the character of the current step: a char local taken out of the Some(..) that a `next()` of a char iterator answered
     cands = []
@@ -688,8 +705,16 @@ def string_escapes(F, res, rule="G9"):
                 if tt.get("k") == "switch":
                     none_edges += [x for v, x in tt["targets"] if int(v) == 0]
         if not any(f.dominates(n_, b) for n_ in none_edges):
-            bad_w.append("line %s: written on a path that has not seen the end of the input" % s_["ln"])
-            continue
+            # not dominated (the scan sits in a helper that answers an Option, the write in the arm that matches None): follow the
+            # constants instead - from the exhausted iterator the write is reached, from no place where a `Some` answer is built
+            def hits(start):
+                why_, bb_, _env = CF.run(f, start, {}, on_stmt=lambda bb, st, env, s0=s_: bb if st is s0 else None)
+                return why_ == "hit"
+            somes = [b3 for b3, _i3, s3 in f.stmts() if (s3.get("rv") or {}).get("k") == "agg" and (s3["rv"].get("adt") or "").endswith("option::Option") and
+                     s3["rv"].get("variant") == "Some"]
+            if not (none_edges and any(hits(n_) for n_ in none_edges) and not any(hits(x) for x in somes)):
+                bad_w.append("line %s: written on a path that has not seen the end of the input" % s_["ln"])
+                continue
         why, bb, env = CF.run(f, b, {}, stop=heads)
         if not (why == "return" and env.get(0) == 0):
             bad_w.append("line %s: the scan that remembers a failure does not itself answer false (%s)" % (s_["ln"], why))
